@@ -18,7 +18,7 @@ pub struct Fail {
 
 pub trait Sys: Sync {
     type Impl;
-    type Model: Clone;
+    type Model: Clone + Send + Sync;
     type Op: Clone + Send + Sync;
     /// fresh initial implementation state (called in every thread)
     fn new_impl(&self) -> Self::Impl;
@@ -31,6 +31,14 @@ pub trait Sys: Sync {
     /// canonical bytes of the implementation state (and whatever the harness needs to address it)
     fn canon(&self, s: &Self::Impl, m: &Self::Model) -> Vec<u8>;
     fn op_json(&self, op: &Self::Op) -> Value;
+    /// When the implementation state is fully determined by the (verified) model state, a frontier
+    /// entry can be rebuilt from it directly instead of replaying its history.
+    fn restore_from_model(&self, _m: &Self::Model) -> Option<Self::Impl> {
+        None
+    }
+    fn restorable(&self) -> bool {
+        false
+    }
     /// invariants checked in every state (beyond agreement with the model)
     fn invariant(&self, _s: &Self::Impl, _m: &Self::Model) -> Result<(), Fail> {
         Ok(())
@@ -56,18 +64,19 @@ pub struct BfsResult {
     pub op_kinds: usize,
 }
 
-struct Succ<O> {
+struct Succ<O, M> {
     parent: usize,
     opi: usize,
     op: O,
     key: u128,
     fail: Option<Fail>,
+    model: Option<M>,
 }
 
 pub fn bfs<S: Sys>(sys: &S, opts: &BfsOpts) -> BfsResult {
     let start = Instant::now();
     let mut visited: HashSet<u128> = HashSet::new();
-    let mut frontier: Vec<Vec<S::Op>> = vec![vec![]];
+    let mut frontier: Vec<(Vec<S::Op>, Option<S::Model>)> = vec![(vec![], None)];
     {
         let s = sys.new_impl();
         let m = sys.init_model();
@@ -90,7 +99,7 @@ pub fn bfs<S: Sys>(sys: &S, opts: &BfsOpts) -> BfsResult {
             break;
         }
         let next_idx = AtomicUsize::new(0);
-        let collected: Mutex<Vec<Succ<S::Op>>> = Mutex::new(vec![]);
+        let collected: Mutex<Vec<Succ<S::Op, S::Model>>> = Mutex::new(vec![]);
         let panicked: Mutex<Option<String>> = Mutex::new(None);
         let fr = &frontier;
         let timed_out = std::sync::atomic::AtomicBool::new(false);
@@ -98,7 +107,7 @@ pub fn bfs<S: Sys>(sys: &S, opts: &BfsOpts) -> BfsResult {
             for _ in 0..opts.threads {
                 scope.spawn(|| {
                     install_quiet_panic_hook();
-                    let mut local: Vec<Succ<S::Op>> = vec![];
+                    let mut local: Vec<Succ<S::Op, S::Model>> = vec![];
                     loop {
                         let lo = next_idx.fetch_add(16, Ordering::SeqCst);
                         if lo >= fr.len() {
@@ -111,9 +120,14 @@ pub fn bfs<S: Sys>(sys: &S, opts: &BfsOpts) -> BfsResult {
                         for i in lo..(lo + 16).min(fr.len()) {
                             // rebuild the state by replaying its history on a fresh object
                             let rebuilt = guarded(|| {
+                                if let Some(m) = &fr[i].1 {
+                                    if let Some(s) = sys.restore_from_model(m) {
+                                        return Ok((s, m.clone()));
+                                    }
+                                }
                                 let mut s = sys.new_impl();
                                 let mut m = sys.init_model();
-                                for op in &fr[i] {
+                                for op in &fr[i].0 {
                                     if let Err(f) = sys.step(&mut s, &mut m, op) {
                                         return Err(f.what);
                                     }
@@ -136,19 +150,24 @@ pub fn bfs<S: Sys>(sys: &S, opts: &BfsOpts) -> BfsResult {
                                         Err(f) => Err(f),
                                         Ok(()) => match sys.invariant(&s2, &m2) {
                                             Err(f) => Err(f),
-                                            Ok(()) => Ok(hash128(&sys.canon(&s2, &m2))),
+                                            Ok(()) => {
+                                                let k = hash128(&sys.canon(&s2, &m2));
+                                                let keep = if sys.restorable() { Some(m2) } else { None };
+                                                Ok((k, keep))
+                                            }
                                         },
                                     }
                                 });
-                                let (key, fail) = match r {
-                                    Ok(Ok(k)) => (k, None),
-                                    Ok(Err(f)) => (0, Some(f)),
+                                let (key, fail, model) = match r {
+                                    Ok(Ok((k, m2))) => (k, None, m2),
+                                    Ok(Err(f)) => (0, Some(f), None),
                                     Err(p) => (
                                         0,
                                         Some(Fail {
                                             sig: "panic".into(),
                                             what: format!("panic: {}", p),
                                         }),
+                                        None,
                                     ),
                                 };
                                 local.push(Succ {
@@ -157,6 +176,7 @@ pub fn bfs<S: Sys>(sys: &S, opts: &BfsOpts) -> BfsResult {
                                     op,
                                     key,
                                     fail,
+                                    model,
                                 });
                             }
                         }
@@ -171,10 +191,10 @@ pub fn bfs<S: Sys>(sys: &S, opts: &BfsOpts) -> BfsResult {
         }
         let mut succ = collected.into_inner().unwrap();
         succ.sort_by_key(|s| (s.parent, s.opi));
-        let mut next: Vec<Vec<S::Op>> = vec![];
+        let mut next: Vec<(Vec<S::Op>, Option<S::Model>)> = vec![];
         for s in succ {
             res.transitions += 1;
-            let mut hist = frontier[s.parent].clone();
+            let mut hist = frontier[s.parent].0.clone();
             hist.push(s.op.clone());
             match s.fail {
                 Some(f) => {
@@ -189,7 +209,7 @@ pub fn bfs<S: Sys>(sys: &S, opts: &BfsOpts) -> BfsResult {
                         if res.samples.len() < 4 && hist.len() >= 3 && (visited.len() % 97 == 5 || res.samples.is_empty()) {
                             res.samples.push(json!(hist.iter().map(|o| sys.op_json(o)).collect::<Vec<_>>()));
                         }
-                        next.push(hist);
+                        next.push((hist, s.model));
                     }
                 }
             }
